@@ -539,6 +539,10 @@ func (sc *SpecScope) call(x *ast.CallExpr) Val {
 			return vBool(sx(">=", v.S, base))
 		}
 		return sc.fail("fresh of non-reference")
+	case "unquote":
+		c.declare("unquote", []string{"Str"}, "Str")
+		v := sc.eval(arg(0))
+		return Val{K: KStr, S: sx("unquote", v.S)}
 	case "reMatch":
 		c.declare("reMatch", []string{"Int", "Str"}, "Bool")
 		re := sc.eval(arg(0))
